@@ -7,9 +7,17 @@ for d in sorted(glob.glob(os.path.join(ROOT, 'seeded', '*'))):
     m = json.load(open(os.path.join(d, 'meta.json')))
     origin = 'reverse of a fix' if 'reverse of the fix' in m.get('origin', '') else 'independent sub-agent'
     rows.append((os.path.basename(d), m['property'], origin, (m.get('needs_to_manifest') or '').replace('|', '/')[:150], m.get('detected_by') or '**not detected**'))
-print('| seeded change | property | origin | needs, to manifest | caught by |')
-print('|---|---|---|---|---|')
-for r in rows:
-    print('| `%s` | %s | %s | %s | %s |' % r)
-print()
-print('%d seeded changes, %d caught.' % (len(rows), sum(1 for r in rows if not r[4].startswith('**'))))
+import sys
+out = ['| seeded change | property | origin | needs, to manifest | caught by |', '|---|---|---|---|---|']
+out += ['| `%s` | %s | %s | %s | %s |' % r for r in rows]
+out += ['', '%d seeded changes; %d caught by the registered quick check of their property, %d obsolete (patch no longer meaningful on the fixed tree), %d not caught.'
+        % (len(rows), sum(1 for r in rows if r[4].startswith('bin/check')), sum(1 for r in rows if r[4].startswith('n/a')), sum(1 for r in rows if r[4].startswith('**')))]
+text = '\n'.join(out)
+if '--into-design' in sys.argv:
+    p = os.path.join(ROOT, 'DESIGN.md')
+    s = open(p).read()
+    a = s.index('<!-- seed-table-begin'); a = s.index('\n', a) + 1
+    b = s.index('<!-- seed-table-end -->')
+    open(p, 'w').write(s[:a] + text + '\n' + s[b:])
+else:
+    print(text)
